@@ -38,7 +38,8 @@ MANIFEST = dict(
          "valid order, but leaves a dangling connection of an already popped follower; same state on the "
          "implementation) and proved only for a node without successors "
          "(C37_wellformed_remove_successors_nodes_leaf_partial); the fuel of its traversal is proved irrelevant "
-         "once sufficient (C37_successor_traversal_fuel_irrelevant); otherwise the executable reference reading checks it "
+         "once sufficient (C37_successor_traversal_fuel_irrelevant) and its follower set is characterised "
+         "(C37_followers_spec: exactly the graph's nodes met by the traversal, each once); otherwise the executable reference reading checks it "
          "(see design/C37.md).",
     note="Trusted: Coq kernel + vm_compute; hand-written model Model/Graph.v (nodes identified by name; a raising call "
          "ends the history); correspondence is differential testing.",
